@@ -304,6 +304,24 @@ class DCAll:
 ColNT = collections.namedtuple("ColNT", "p q")
 
 
+class ColNTSub(collections.namedtuple("ColNTBase", "x y")):
+    """the idiom from the collections docs: a subclass of a factory named tuple adding a method -- still a named tuple"""
+    __slots__ = ()
+
+    def norm(self):
+        return 0
+
+
+class TypedNTBase(typing.NamedTuple):
+    span: typing.Any
+    label: str = "a"
+
+
+class TypedNTSub(TypedNTBase):
+    def show(self):
+        return self.label
+
+
 class CustomMapping(collections.abc.Mapping):
     def __init__(self, d):
         self._d = d
@@ -463,6 +481,8 @@ FACTORIES = {
     "DCAll": (lambda: DCAll(a=(1, 2), b="xy"), ["a", "b"]),
     "ColNT": (lambda: ColNT("ab", 1), None),
     "ColNT-tuplefirst": (lambda: ColNT((1, 2), (3, 4)), None),
+    "ColNTSub": (lambda: ColNTSub(1, 2), None), "ColNTSub-pairfirst": (lambda: ColNTSub((1, 2), 3), None),
+    "TypedNTSub-pairfirst": (lambda: TypedNTSub((1, 2), "a"), None), "TypedNTSub-strfirst": (lambda: TypedNTSub("ab", "a"), None),
     "bytes": (lambda: b"ab", None), "bytes-empty": (lambda: b"", None), "bytes-3": (lambda: b"abc", None),
     "bytearray": (lambda: bytearray(b"xy"), None),
     "list-of-bytes-pairs": (lambda: [b"ab", b"cd"], None),
